@@ -160,6 +160,10 @@ def run(ctx):
                 for prt in parts:
                     if isinstance(prt, ast.Constant):
                         continue
+                    if isinstance(prt, ast.Name) and isinstance(f.module.assigns.get(prt.id), ast.Constant) \
+                            and prt.id not in f.params() and not any(
+                                isinstance(x, ast.Name) and x.id == prt.id and isinstance(x.ctx, ast.Store) for x in ast.walk(f.node)):
+                        continue        # a module-level constant piece of the pattern
                     esc = isinstance(prt, ast.Call) and call_name(prt) == "escape"
                     if not esc and isinstance(prt, ast.Name):
                         rd6 = rd6 or _RD6(f)
